@@ -187,10 +187,25 @@ func runSession(endpoint string, plan *faultPlan, compress bool) (verdict string
 	check("client", ch, c, cc)
 	for name, t := range map[string]*memConn{"server": sc, "client": cc} {
 		tap := t.Tap()
+		hs := 0
 		if i := bytes.Index(tap, []byte("\r\n\r\n")); i >= 0 {
-			tap = tap[i+4:]
+			hs = i + 4
 		}
-		fs, _ := decodeFrames(tap) // a partial last frame (the injected short write) ends the list
+		// gws hands every frame to the transport in one Write: the frames are decoded per Write call. The injected short write
+		// delivers a PART of a frame; what follows it on the wire cannot be parsed as a stream any more (where the next frame
+		// starts depends on the random mask key), so that call is skipped instead of letting it shift the decoding of the rest.
+		var fs []decodedFrame
+		off := 0
+		for _, call := range t.WriteCalls() {
+			start := off
+			off += len(call)
+			if start < hs {
+				continue
+			}
+			if part, err := decodeFrames(call); err == nil {
+				fs = append(fs, part...)
+			}
+		}
 		closes := 0
 		for _, f := range fs {
 			if f.opcode >= 8 && (len(f.payload) > 125 || !f.fin || f.lenForm != 7) {
